@@ -120,6 +120,25 @@ def packed_op(slices):
     return None
 
 
+EAGER3 = {0, 7, 8, 9}
+
+
+def eager_op(shape, slices):
+    """pre-instantiated op of the eager entry point array::slice for this list of specs, or None (rank-0 results are not arrays)"""
+    ks = [kind_of(s) for s in slices]
+    if ks.count(9) > 1:
+        return None
+    if sum(1 for k in ks if k == 8) >= len(shape):
+        return None
+    if len(ks) == 1:
+        return "aslice1" if ks[0] != 9 else None
+    if len(ks) == 2:
+        return "aslice2_a" if ks[0] < 5 else "aslice2_b"
+    if len(ks) == 3 and all(k in EAGER3 for k in ks):
+        return "aslice3"
+    return None
+
+
 def dynamic_ops(slices):
     """dynamic encodings able to express this list of specs"""
     out = []
@@ -165,7 +184,7 @@ class C05(Prop):
     servers = ["slice"]
     chunk = 300
     rule = ("case = an arange array (dim 1..3) and a basic index (ranges start:stop:step with optional parts, integers, at most one ellipsis) in one "
-            "encoding: packed/static (tuple parts with None/int types) or dynamic (list of array<int,3>, list of either<int,either<ellipsis,...>>, "
+            "encoding: packed/static (tuple parts with None/int types; lazily through view::slice and eagerly through array::slice) or dynamic (list of array<int,3>, list of either<int,either<ellipsis,...>>, "
             "list of tuple<none,int> / tuple<int,int>); the view's shape and every element are compared with Python/NumPy basic indexing; index-level "
             "cases use extents up to 2^31 without storage. Exhaustive per axis: n in 1..6, start/stop in [-(n+2), n+2] or omitted, step in {-3..3}\\{0} or omitted. "
             "Specs inside the input classes of the known findings are excluded by construction and counted. "
@@ -182,6 +201,9 @@ class C05(Prop):
 
     def _encodings(self, shape, slices):
         f = packed_op(slices)
+        if f:
+            yield self._mk(shape, slices, f)
+        f = eager_op(shape, slices)
         if f:
             yield self._mk(shape, slices, f)
         for f in dynamic_ops(slices):
@@ -215,6 +237,22 @@ class C05(Prop):
                     if a != "..." and b != "..." and k % 3 == 0:
                         yield from self._encodings([n, 2, m], [a, "...", b])
 
+        # an ellipsis in every position covering 0, 1 or 2 axes of a 3-d / 4-d array, integers (both signs) and ranges around it
+        def opts(n):
+            o = [0, -1, [None, None], [None, None, -1], [-n, None, 2]]
+            if n >= 2:
+                o += [n - 1, -n, [1, None], [None, -1], [n - 1, 0, -1]]
+            return o
+        for shape in ([2, 3, 4], [3, 1, 2], [2, 2, 3, 2]):
+            d = len(shape)
+            for k in range(1, d + 1):
+                for pos in range(k + 1):
+                    axes = list(range(pos)) + list(range(d - (k - pos), d))
+                    for combo in itertools.product(*[opts(shape[ax]) for ax in axes]):
+                        sl = [c if isinstance(c, int) else list(c) for c in combo]
+                        sl.insert(pos, "...")
+                        yield from self._encodings(shape, sl)
+
         # index level (no storage): small extents exhaustively, large extents at the float-mantissa / int boundaries
         for n in range(1, 7):
             for sp in all_specs(n, -(n + 2), n + 2):
@@ -245,25 +283,23 @@ class C05(Prop):
             d = draw(st.integers(1, 3))
             shape = [draw(st.integers(1, 6)) for _ in range(d)]
             k = draw(st.integers(1, d))
+            # position of the ellipsis among the k specs (None: no ellipsis, only when every axis has a spec); specs before it address the
+            # leading axes, specs after it the trailing axes
+            pos = draw(st.integers(0, k)) if (k < d or draw(st.integers(0, 3)) == 0) else None
+            axes = list(range(k)) if pos is None else list(range(pos)) + list(range(d - (k - pos), d))
             slices = []
-            for i in range(k):
-                n = shape[i]
+            for ax in axes:
+                n = shape[ax]
                 t = draw(st.integers(0, 9))
-                if t == 0:
+                if t <= 1:
                     slices.append(draw(st.integers(-n, n - 1)))
                 else:
                     b = st.one_of(st.none(), st.integers(-(n + 2), n + 2))
                     stp = draw(st.sampled_from([None, None, 1, 2, 3, -1, -2, -3]))
                     a_, b_ = draw(b), draw(b)
                     slices.append([a_, b_, stp] if stp is not None else [a_, b_])
-            if k < d and draw(st.booleans()):
-                slices.append("...")
-            elif k < d:
-                # keep the trailing axes implicit (NumPy allows fewer indices than axes): express with an ellipsis,
-                # the packed API requires one spec per axis or an ellipsis
-                slices.append("...")
-            if k == d and draw(st.integers(0, 3)) == 0:
-                slices.insert(draw(st.integers(0, len(slices))), "...")
+            if pos is not None:
+                slices.insert(pos, "...")
             encs = list(self._encodings(shape, slices))
             if not encs:
                 return self._mk(shape, [[None, None]] * d, "slice%d" % d if d == 1 else None) if d == 1 else self._mk([shape[0]], [[None, None]], "slice1")
@@ -318,7 +354,7 @@ class C05(Prop):
             return ["index-level", "enc:" + ("dynamic" if case.get("dynamic") else "packed")]
         f = case["stages"][0]["f"]
         sl = self._slices(case)
-        out = ["enc:" + ("packed" if f.startswith("slice") else f), "naxes:%d" % len(sl)]
+        out = ["enc:" + ("packed" if f.startswith("slice") else "eager-packed" if f.startswith("aslice") else f), "naxes:%d" % len(sl)]
         if any(isinstance(s, int) for s in sl):
             out.append("has_int")
         if "..." in sl:
